@@ -1,5 +1,5 @@
 (** * C15 — processing order within a step is a shuffle driven only by the generator *)
-From Bourse Require Import Model.Types Model.Rng Model.Env Proofs.EnvProps.
+From Bourse Require Import Model.Types Model.Rng Model.Env Proofs.EnvProps Proofs.Uniform.
 From Coq Require Import Permutation.
 
 (** The processed order is a permutation of the queue. *)
@@ -17,6 +17,48 @@ Proof. intros A B; exact (@shuffle_parametric A B). Qed.
 
 Check c15_shuffle_parametric.
 
+(** Uniformity of the algorithm, part 1 - the index sampler
+    ([UniformInt<u32>::sample_single], widening multiply with rejection): for every
+    range [0 < r < 2^32] and every value [k < r], the 32-bit words [v] that are
+    accepted and yield [k] are exactly the interval [c_k <= v < c_k + 2^lz] with
+    [c_k = ceil(k * 2^32 / r)] and [lz] the leading zeros of [r]; the interval lies
+    inside the 32-bit words. Every value therefore has the same number [2^lz] of
+    preimages: on uniformly distributed words the accepted draw is uniform on
+    [0, r). (Unbounded in [r]: a proof, not an enumeration.) *)
+Theorem c15_sampler_equal_fibers : forall r k v,
+  0 < r -> r < 4294967296 -> k < r -> v < 4294967296 ->
+  ((m32 (v * r) <=? zone_of r) = true /\ N.shiftr (v * r) 32 = k) <->
+  (cdiv (k * 4294967296) r <= v < cdiv (k * 4294967296) r + 2 ^ lz32 r).
+Proof. exact sampler_fiber. Qed.
+
+Theorem c15_sampler_fibers_inside_words : forall r k,
+  0 < r -> r < 4294967296 -> k < r -> cdiv (k * 4294967296) r + 2 ^ lz32 r <= 4294967296.
+Proof. exact sampler_fiber_inside. Qed.
+
+(** Part 2 - Fisher-Yates: the shuffle is [fy] applied to the indices it draws,
+    the index for position [i] lying in [0..i]; and on a batch of distinct items
+    two different index sequences give two different arrangements. There are
+    [n!] index sequences and [n!] arrangements, so each arrangement arises from
+    exactly one sequence: with uniform, independent index draws every processing
+    order is equally likely. *)
+Theorem c15_shuffle_is_fisher_yates : forall (A : Type) i (l l' : list A) g g',
+  shuffle_from i l g = Some (l', g') -> exists js, js_ok i js /\ l' = fy i js l.
+Proof. intros A; exact (@shuffle_from_is_fy A). Qed.
+
+Theorem c15_fisher_yates_injective : forall (A : Type) i js js' (l : list A),
+  NoDup l -> (i < length l)%nat -> js_ok i js -> js_ok i js' -> fy i js l = fy i js' l -> js = js'.
+Proof. intros A; exact (@fy_injective A). Qed.
+
+Check c15_sampler_equal_fibers.
+Check c15_fisher_yates_injective.
+
+(** Non-vacuity: range 6 has lz = 29; value 5 comes from the 2^29 words starting at ceil(5 * 2^32 / 6). *)
+Example c15_fiber_example :
+  lz32 6 = 29 /\ cdiv (5 * 4294967296) 6 = 3579139414 /\
+  (m32 (3579139414 * 6) <=? zone_of 6) = true /\ N.shiftr (3579139414 * 6) 32 = 5 /\
+  N.shiftr (3579139413 * 6) 32 = 4 /\ (m32 ((3579139414 + 536870912) * 6) <=? zone_of 6) = false.
+Proof. vm_compute. repeat split; reflexivity. Qed.
+
 (** Non-vacuity and a pin of the algorithm: the permutations rand 0.8.5 /
     rand_xoshiro 0.6.0 produce for two seeds (the same the real crates give). *)
 Example c15_known_permutations :
@@ -26,3 +68,7 @@ Proof. vm_compute. split; reflexivity. Qed.
 
 Print Assumptions c15_shuffle_is_permutation.
 Print Assumptions c15_shuffle_parametric.
+Print Assumptions c15_sampler_equal_fibers.
+Print Assumptions c15_sampler_fibers_inside_words.
+Print Assumptions c15_shuffle_is_fisher_yates.
+Print Assumptions c15_fisher_yates_injective.
